@@ -979,8 +979,11 @@ func c01Ops() []c01Op {
 		})
 	}
 	// --- filtering
-	for _, mn := range []string{"-1", "0", "L", "L+1", "3"} {
-		for _, mx := range []string{"-1", "0", "L-1", "L", "3"} {
+	for _, mn := range []string{"-1", "0", "L", "L+1", "3", "-2"} {
+		for _, mx := range []string{"-1", "0", "L-1", "L", "3", "-2"} {
+			if (mn == "-2") != (mx == "-2") && mn != "0" && mx != "L" { // -2: any negative bound is "no bound"; a few pairings
+				continue
+			}
 			mn, mx := mn, mx
 			add("filterLength:"+mn+":"+mx, true, true, func(w *c01World) {
 				L := w.m.lenOr(2)
